@@ -4,6 +4,7 @@ CONFIG = {
     "cmd": "c04",
     "coq_files": ["theories/Proofs/IterProofs.v"],
     "trusted": [
+        "coq/theories/Proofs/PipelineLaws.v states the same laws over the iterators of coq/theories/Eval.v (next / iterate / eval_for); the tie of Eval.v to the Go interpreter is the C02 correspondence",
         "list-level specifications (List.filter, Iter.sort_by with the multi-key comparator, firstn/skipn, Iter.dedup, Iter.collect_groups) and the pure iterator state machines of coq/theories/Iter.v that mirror collections/{filter,limit,sort,unique}.go and clauses/collect_iterator.go",
         "predicate / key / projection expressions are evaluated by the reference evaluator (Eval.v) on each row",
         "hash-based steps (DISTINCT, COLLECT grouping) are specified with structural equality: exact under the no-collision hypothesis of C08",
